@@ -238,6 +238,9 @@ class Translator:
             return None
         if isinstance(st, ast.Assign) and len(st.targets) == 1:
             t, v = st.targets[0], st.value
+            if isinstance(t, ast.Attribute) and isinstance(t.value, ast.Name) and t.value.id == self.svi and t.attr == "optim":
+                self.abstracted.append(seg(st))          # `svi_class.optim = optimizer(lr)`: same as the __setattr__ form
+                return None
             if isinstance(t, ast.Tuple):
                 if not (len(t.elts) == 2 and all(isinstance(x, ast.Name) for x in t.elts) and isinstance(v, ast.Call)
                         and isinstance(v.func, ast.Name) and v.func.id == self.update_name and len(v.args) == 3
@@ -343,11 +346,18 @@ class Translator:
         """`def update_func(state, svi_class, lr)`: set the optimiser, one `stable_update`, return (state, loss)"""
         names = [a.arg for a in f.args.args]
         body = [s for s in f.body if not (isinstance(s, ast.Expr) and isinstance(s.value, ast.Constant))]
-        ok = (len(names) == 3 and len(body) == 3
-              and isinstance(body[0], ast.Expr) and "__setattr__" in seg(body[0]) and "optimizer(" + names[2] + ")" in seg(body[0])
-              and isinstance(body[1], ast.Assign) and seg(body[1].value) == f"{names[1]}.stable_update({names[0]})"
-              and isinstance(body[1].targets[0], ast.Tuple) and isinstance(body[2], ast.Return)
-              and seg(body[2].value).strip("()") == ", ".join(x.id for x in body[1].targets[0].elts))
+        ok = len(names) == 3 and len(body) in (2, 3)
+        if ok:
+            first = body[0]
+            sets = ((isinstance(first, ast.Expr) and "__setattr__" in seg(first))
+                    or (isinstance(first, ast.Assign) and seg(first.targets[0]) == f"{names[1]}.optim"))
+            ok = sets and "optimizer(" + names[2] + ")" in seg(first)
+        if ok and len(body) == 3:
+            ok = (isinstance(body[1], ast.Assign) and seg(body[1].value) == f"{names[1]}.stable_update({names[0]})"
+                  and isinstance(body[1].targets[0], ast.Tuple) and isinstance(body[2], ast.Return)
+                  and seg(body[2].value).strip("()") == ", ".join(x.id for x in body[1].targets[0].elts))
+        elif ok:
+            ok = isinstance(body[1], ast.Return) and seg(body[1].value) == f"{names[1]}.stable_update({names[0]})"
         if not ok:
             raise Miss(f"the update closure {f.name} is not `set optimiser; stable_update; return state, loss`")
         self.update_name = f.name
